@@ -419,6 +419,12 @@ package plush
 //@ func (c *compiler) evalCallExpression
 //@ ensures ufn: is(result, "*userFunction") ==> pay(result) != 0
 //@ requires node != nil
+// C11: a method call x.M(...) invokes the method named M of the value x evaluates to (looked up on the
+// value, else on a pointer to a copy of it), with exactly the name written in the template
+//@ assert methodname: node.Callee != nil && is(node.Function, "*ast.Identifier") ==> mname == unbox(node.Function, "*ast.Identifier").Value before MethodByName#1
+//@ assert methodrecv: node.Callee != nil ==> callarg0 == rvMethod(rvOf(fnv), mname) || callarg0 == rvMethod(rvNew(dyn(fnv)), mname) before Call#1
+// C12: a fixed-arity helper is never invoked with more arguments than it has parameters
+//@ ensures toomany: calls(Call) > 0 && node.Callee == nil && !isVariadic(rt) ==> len(node.Arguments) <= rtNumIn
 // C16: the template function invoked is the value the function expression has now, in this scope, and
 // it gets this call's argument expressions
 //@ ghost fnv = callresult after evalExpression#1
